@@ -6,6 +6,9 @@ From V Require Import lib.Verdict lib.FsModel model.M_C38.
 Import ListNotations.
 Open Scope Z_scope.
 
+(* the fuel constant must never be unfolded by tactics *)
+Opaque STEPS.
+
 (** ---------- byte strings and paths ---------- *)
 Lemma bytes_eqb_refl : forall a, bytes_eqb a a = true.
 Proof. induction a as [|x a IH]; cbn; [reflexivity|]. rewrite Z.eqb_refl, IH. reflexivity. Qed.
